@@ -153,6 +153,7 @@ func main() {
 	chk.Rule = "stage 1: shared-state footprint of each of the operations (fresh process each); stage 2: stateless schedule exploration of every pair (and sub-alphabet triples) under a cooperative scheduler with preemption bounding at the statements that can touch a written shared variable; stage 3: free-running race-detector pass over the same bodies. states = schedule-tree nodes (distinct prefixes executed), transitions = scheduling points passed; non-trivial = distinct (scenario, schedule) executions with at least two threads"
 	chk.Assume("shared state = memory reachable from package-level variables of the library (registered automatically by the instrumenter); a statement can touch it if it mentions such a variable or runs inside a function that received a pointer/slice/map argument or receiver pointing into it")
 	chk.Assume("sequential consistency between scheduling points; unsynchronised accesses and weaker orderings are the race detector's part (stage 3)")
+	chk.Assume("memory shared between OBJECTS that the library derived from one another (bands cut from one parent bitmap with BinaryBitmap.Crop before the goroutines start, each band then used by one goroutine only: operations lum-sibling-band-read and its twin) is not reachable from package-level variables; it is the free-running race pass and the result comparison that judge it, not the schedule explorer")
 	var info struct {
 		Roots, Sites, Funcs, Ops []string
 	}
